@@ -27,13 +27,17 @@ for f in sorted(glob.glob(os.path.join(ROOT, 'seeded/*/meta.json'))):
 final = dict(input=0, tie=0, missed=0)
 for f in sorted(glob.glob(os.path.join(ROOT, 'seeded/*/meta.json'))):
     m = json.load(open(f)); c = m['check']; a = m.get('check_after_strengthening') or c
+    rc = os.path.join(os.path.dirname(f), 'recheck.json')
+    if os.path.exists(rc):
+        # the outcome of bin/seed-recheck: the checks as they are now, against the change
+        a = json.load(open(rc))
     if a['detected'] and a.get('with_failing_input'): final['input'] += 1
     elif a['detected']: final['tie'] += 1
     else: final['missed'] += 1
 head = ["%d seeded changes kept (each confirmed by me: its demonstration fails with the change and passes without, the repository's "
         "own 415 tests pass with it). First run of the property's quick check: %d reported with a failing input, %d reported by the "
         "broken tie only (`no-failing-input-found`), %d missed. Every missed one (and some of the tie-only ones) led to a strengthening "
-        "of the check (last column, §12). As the checks stand now: %d reported with a failing input, %d by the broken tie only (the reason "
+        "of the check (last column, §12). All of them were run again against the checks as they stand now (`bin/seed-recheck`, `seeded/*/recheck.json`): %d reported with a failing input, %d by the broken tie only (the reason "
         "is in the seed's meta.json `note`), %d missed." % (n['total'], n['first_input'], n['first_tie'], n['missed'], final['input'], final['tie'], final['missed']),
         "",
         "| seed | what was changed (from the sub-agent's meta.json) | needs | first run of the check | after strengthening |",
